@@ -33,6 +33,10 @@ BASES = {
     "relative": lambda: {"version": 1, "subject": "CN=Relative, O=Org", "serialNumber": 78, "validity": {"duration": "3y"},
                          "extensions": [{"keyUsage": {"content": ["crlSign"]}}]},
     "untilonly": lambda: {"version": 1, "subject": "CN=Until", "serialNumber": 79, "validity": {"until": "2140-05-06"}},
+    # integers at the top of the int64 range: a hash that goes through floating point cannot tell neighbours apart
+    "bigserial": lambda: {"version": 1, "subject": "CN=Big Serial", "serialNumber": 2 ** 53},
+    "hugeserial": lambda: {"version": 1, "subject": "CN=Huge Serial", "serialNumber": 2 ** 63 - 2,
+                           "extensions": [{"certificatePolicies": {"content": [{"oid": "1.2.3.4", "qualifiers": [{"userNotice": {"organization": "O", "numbers": [2 ** 53, 7]}}]}]}}]},
 }
 PROFILE = lambda: {"version": 1, "name": "P", "validity": {"duration": "4y"}, "subjectAttributes": {"attributes": [{"attribute": "CN"}, {"attribute": "O", "optional": True}], "allowOther": True},
                    "extensions": [{"basicConstraints": {"critical": True, "content": {"ca": False}}}, {"subjectAlternativeName": {}, "override": True},
@@ -51,6 +55,9 @@ def edits_for(base):
     if "," in base["subject"]:
         e("subject order", lambda c: c.__setitem__("subject", ", ".join(reversed([p.strip() for p in c["subject"].split(",")]))))
     e("serialNumber", lambda c: c.__setitem__("serialNumber", c.get("serialNumber", 5) + 1))
+    for i, x in enumerate(base.get("extensions", [])):
+        if "certificatePolicies" in x and "userNotice" in (x["certificatePolicies"].get("content") or [{}])[0].get("qualifiers", [{}])[0]:
+            e("userNotice number + 1", lambda c, i=i: c["extensions"][i]["certificatePolicies"]["content"][0]["qualifiers"][0]["userNotice"]["numbers"].__setitem__(0, 2 ** 53 + 1))
     e("keyAlgorithm", lambda c: c.__setitem__("keyAlgorithm", "P-384"))
     e("signatureAlgorithm", lambda c: c.__setitem__("signatureAlgorithm", "ECDSAwithSHA384"))
     e("issuerUniqueId", lambda c: c.__setitem__("issuerUniqueId", "!binary:CQk="))
